@@ -311,6 +311,8 @@ def run_case(ctx):
         if new is not None and hasattr(new, "todense"):
             produced += 1
             if any(new is lv.mp for lv in mon.pool):
+                # "operations return new objects": a state-producing call handed back one of the live objects
+                ctx.violate(f"{mon.trace[-1].split('[')[0]}|returns-one-of-its-inputs-instead-of-a-new-object", trace=mon.trace[-4:])
                 continue
             if any(mon.shares(new, lv.mp) for lv in mon.pool):
                 ctx.count("results_sharing_memory_with_an_input")
